@@ -47,7 +47,7 @@ def _plan(tier: str, seed: int):
     if tier == "quick":
         return [{"name": f"s{i}", "engine": "jit", "args": {"n": 260},
                  "timeout": 900} for i in range(4)]
-    return [{"name": f"s{i}", "engine": "jit", "args": {"n": 4000},
+    return [{"name": f"s{i}", "engine": "jit", "args": {"n": 20000},
              "timeout": 3400} for i in range(16)]
 
 
